@@ -93,7 +93,9 @@ void gen_matrix(vf_rng *r, const vf_api *P, const gen_spec *g, vf_mat *A)
     case PAT_LOWERDENSE: {
         /* dense lower triangle (long supernodes that straddle panel boundaries) + sparse upper part whose first entry per column
            starts a U-segment somewhere inside a supernode */
-        for (int j = 0; j < n; j++) { for (int i = j; i < m; i++) S(i, j); int k = rng_int(r, 0, 2); for (int t = 0; t < k && j > 0; t++) S(rng_int(r, 0, j - 1), j); }
+        int near = rng_bool(r, 0.6), dist = rng_int(r, 2, 12);   /* upper entries anywhere, or only within `dist` of the diagonal (a U-segment then starts inside a recent supernode) */
+        for (int j = 0; j < n; j++) { for (int i = j; i < m; i++) S(i, j); int k = rng_int(r, 0, 2);
+            for (int t = 0; t < k && j > 0; t++) S(near ? j - rng_int(r, 1, dist < j ? dist : j) : rng_int(r, 0, j - 1), j); }
         } break;
     case PAT_STAIR: { int i = 0; for (int j = 0; j < n; j++) { int h = rng_int(r, 1, 3); for (int t = 0; t < h; t++) S(i + t, j); S(j, j); if (rng_bool(r, 0.7)) i++; if (i >= m) i = m - 1; } } break;
     }
